@@ -134,14 +134,17 @@ def run(tier, seed):
         "FB_KARAT = 0 in the pinned build: fb_mul_karat runs one Karatsuba level",
         "the tiny world has no Koblitz curve with a = 0 of prime subgroup order (#E_0(GF(2^17)) = 4*137*239): mu = -1 is covered by NIST-K283",
     ]
+    # debugging aid: C16_PARTS=<label prefix>[,...] runs only those conformance parts (and no models)
+    only = [x for x in os.environ.get("C16_PARTS", "").split(",") if x]
     # 1. design level + the definitions themselves
-    core.run_models(ev, MC_RUNS(quick))
-    wide_crosscheck(ev, wd, rng, quick)
+    if not only:
+        core.run_models(ev, MC_RUNS(quick))
+        wide_crosscheck(ev, wd, rng, quick)
     conf = core.Conformance("C16", ev, wd)
     cover = {}
 
     def part(label, cfg, cases, heavy=False, name="fb", extra=None, nofork=False, bdir=None, mps=None):
-        if not cases:
+        if not cases or (only and not any(label.startswith(o) for o in only)):
             return
         events, _ = conf.run(label, cfg, name, DRV, cases, SPEC, extra_cc=extra, nontrivial=nontrivial, bdir=bdir,
                              min_per_shard=mps or (1 if heavy else 200), driver_timeout=2400, tlc_timeout=2400,
